@@ -29,6 +29,10 @@ Clauses(e) ==
                  <<"drift.layout", EncodeOK(c) => e.id = EncodeNibs(c)>>,
                  <<"drift.expected", e.exp = <<>> \/ e.exp = e.id>>,
                  <<"drift.decode", EncodeOK(c) /\ Len(e.id) = 16 => ValidNibs(e.id) /\ DecodeNibs(e.id) = c>> >>
+    [] e.ev = "kidsmax" ->
+         \* expanding a cell to MaxRes through the hierarchy API: either these positions get proper ids or the call refuses
+         IF ~e.ok THEN << <<"C05.fits", FALSE>> >>
+         ELSE << <<"C05.res", e.allres>>, <<"C05.unique", e.distinct /\ e.n = e.want>>, <<"C05.decode", e.parentok>> >>
     [] e.ev = "nofit" -> << <<"C05.nofit", e.raised>> >>
     [] e.ev = "count" ->
          << <<"C05.count.norep", e.distinct = e.total>>,
